@@ -58,7 +58,7 @@ SessScenario(d, o, v) ==
             [has |-> TRUE, ct |-> d.ncs, cover |-> d.cover, normalize |-> d.normalize, asarray |-> o.arr,
              mult |-> o.mult, u |-> SessU, kw |-> IF v % 4 = 1 THEN 2 ELSE IF v % 4 = 3 THEN 1 ELSE 0])
 EstRecS(d, o, v) == LET sc == SessScenario(d, o, v)
-                    IN [kind |-> "est", sc |-> sc, est |-> EstTaps(sc), key |-> [d |-> d, o |-> o, v |-> v]]
+                    IN [kind |-> "est", sc |-> sc, est |-> EstTaps(sc), scales |-> ObsScales, key |-> [d |-> d, o |-> o, v |-> v]]
 
 (* -------------------------------------------------------------------- machine ------ *)
 SInit == /\ c = [kind |-> "init"] /\ rootDen = 1 /\ users = <<>> /\ ests = <<>> /\ phase = "run"
@@ -72,22 +72,27 @@ CreateUser(d) ==
   /\ phase = "run" /\ Len(users) < MaxUsers
   /\ rootDen' = IF Alias(d) /\ d.normalize THEN SessL ELSE rootDen      \* in-place normalisation of a shared array
   /\ users' = Append(users, [d |-> d, alias |-> Alias(d), den |-> rootDen])
-  /\ c' = [kind |-> "s-user", d |-> d]
+  /\ c' = [kind |-> "s-user", d |-> d, req |-> {"ArgumentsUnchanged", "FrameRoot", "FrameUsers", "EarlierResultsUnchanged"}]
   /\ UNCHANGED <<ests, phase>>
 
 \* CazacBasedChannelEstimator(user | user.seq_array(), size_multiplier) / CazacBasedWithOCCChannelEstimator(user)
 CreateEst(i, o) ==
   /\ phase = "run" /\ Len(ests) < MaxEsts /\ i \in 1..Len(users) /\ o \in Opts(users[i].d)
-  /\ ests' = Append(ests, [user |-> i, o |-> o, win |-> -1])
-  /\ c' = [kind |-> "s-newest", user |-> i, o |-> o]
+  /\ ests' = Append(ests, [user |-> i, o |-> o, win |-> -1, held |-> "none"])
+  /\ c' = [kind |-> "s-newest", user |-> i, o |-> o,
+           req |-> {"ArgumentsUnchanged", "FrameRoot", "FrameUsers", "EarlierResultsUnchanged"}]
   /\ UNCHANGED <<rootDen, users, phase>>
 
 \* estimator j . estimate_channel_freq_domain(observation of variant v, keep(v) [, extra_dimension(v)])
 KeepOf(j, v) == SessScenario(users[ests[j].user].d, ests[j].o, v).keep
 Estimate(j, v) ==
   /\ phase = "run" /\ j \in 1..Len(ests)
-  /\ ests' = [ests EXCEPT ![j].win = IF Dev.WindowCachedOnEstimator /\ @ < 0 THEN KeepOf(j, v) ELSE @]
+  /\ ests' = [ests EXCEPT ![j].win = IF Dev.WindowCachedOnEstimator /\ @ < 0 THEN KeepOf(j, v) ELSE @,
+                          \* the caller keeps every returned array: a later call must not write into an earlier result
+                          ![j].held = IF @ = "none" THEN "ok" ELSE IF Dev.ResultBufferReused THEN "clobbered" ELSE @]
   /\ c' = [kind |-> "s-est", est |-> j, v |-> v, keep |-> KeepOf(j, v),
+           req |-> {"ArgumentsUnchanged", "FrameRoot", "FrameUsers", "EarlierResultsUnchanged", "CallDependsOnArgsOnly",
+                    "EstimateHomogeneous"},
            \* the window that is applied
            keff |-> IF Dev.WindowCachedOnEstimator /\ ests[j].win >= 0 THEN ests[j].win ELSE KeepOf(j, v),
            \* the estimate is the channel times scaleNum / scaleDen: the estimator multiplies by the size
@@ -113,6 +118,8 @@ FrameRoot == rootDen = 1
 FrameUsers == \A i \in 1..Len(users) : AmpDen(users[i], rootDen) = Norm2(users[i].d)
 \* an estimate is a function of the arguments of the call
 CallDependsOnArgsOnly == c.kind = "s-est" => (c.keff = c.keep /\ c.scaleNum = c.scaleDen)
+\* results handed out earlier stay what they were
+EarlierResultsUnchanged == \A j \in 1..Len(ests) : ests[j].held # "clobbered"
 SessTypeOK == /\ Len(users) <= MaxUsers /\ Len(ests) <= MaxEsts /\ phase \in {"run", "cat"}
               /\ \A j \in 1..Len(ests) : ests[j].user \in 1..Len(users)
 
